@@ -213,6 +213,23 @@ fn c05(thorough: bool) -> Report {
             }
         }
     }
+    // every proper prefix of every (short) well-formed message: the two front ends must fail alike on a cut stream
+    for m in corpus::messages(false).iter().map(encode).filter(|m| m.len() < if thorough { 2000 } else { 400 }) {
+        for k in 0..m.len() {
+            let p = &m[..k];
+            let base = run_blocking(&whole(p));
+            for c in [usize::MAX, 1, 3] {
+                let mut s = whole(p);
+                if c != usize::MAX { s.chunks = vec![c]; }
+                r.case(p);
+                let a = run_async(&s);
+                if a != base {
+                    r.fail(format!("async outcome {a:?} differs from blocking {base:?} for the cut stream {} (chunks of {c})", hex(p)));
+                    return r;
+                }
+            }
+        }
+    }
     r
 }
 
